@@ -80,6 +80,17 @@ def cases(rng, tier):
         comp = rng.choice([{"f": "PPMD", "order": 6, "mem": 24}, {"f": "PPMD", "order": 6, "mem": 24}, {"f": "ZSTD", "level": 1}, {"f": "DEFLATE"}, {"f": "BZIP2"}, {"f": "COPY"}])
         mem = [{"name": "m%d" % j, "content": {"len": rng.randint(1, 70), "tex": tex[b_], "seed": rng.getrandbits(32)}} for j in range(rng.choice([2, 2, 3]))]
         out.append(dict(members=mem, chain=[{"f": b_}, comp], password=None, header="encoded", target="bytesio", entry="writestr", block=None, chunk=None, volume=None))
+    # whatever chain the writer accepts has to come back (sixth hunt: the writer accepted chains its reader cannot set up):
+    # random chains of one to three coders over the whole alphabet, refused ones counted as such
+    alpha = [{"f": "DELTA", "dist": 2}, {"f": "X86"}, {"f": "ARM"}, {"f": "POWERPC"}, {"f": "IA64"}, {"f": "COPY"}, {"f": "LZMA", "preset": 1}, {"f": "LZMA2", "preset": 1},
+             {"f": "ZSTD", "level": 1}, {"f": "BZIP2"}, {"f": "DEFLATE"}, {"f": "PPMD", "order": 6, "mem": 24}, {"f": "BROTLI", "level": 1}]
+    for i in range(120 if tier == "quick" else 2500):
+        ch = [dict(rng.choice(alpha)) for _ in range(rng.choice([1, 2, 2, 3, 3]))]
+        aes = rng.random() < 0.3
+        if aes:
+            ch.append({"f": "AES"})
+        mem = [{"name": "m%d" % j, "content": G.content_recipe(rng, max_len=3000)} for j in range(2)]
+        out.append(dict(members=mem, chain=ch, password=("pw" if aes else None), header="encoded", target="bytesio", entry="writestr", block=None, chunk=None, volume=None))
     if tier == "thorough":
         # every chain x every boundary length once
         for ch in chains:
